@@ -82,6 +82,34 @@ class PipelineProp(Prop):
             return g + "/Err:" + obs["err"]
         return g + ("/cut" if obs["cuts"] else "/nocut")
 
+    def neighbours(self, case):
+        """the same map with every bait boundary moved by a few bases / about one error length"""
+        if case.get("pieces") is not None:
+            return
+        from fractions import Fraction
+
+        try:
+            err = 1 + int(Fraction(case["pretext"]["bpt"]))
+        except Exception:
+            err = 2
+        ptx = case["pretext"]["scaffolds"]
+        n = 0
+        for i, sc in enumerate(ptx):
+            for j, r in enumerate(sc["rows"]):
+                if r[0] != "F":
+                    continue
+                for k in (2, 3):
+                    for d in (-err, -max(1, err // 2), -1, 1, max(1, err // 2), err):
+                        r2 = list(r)
+                        r2[k] = max(1, r2[k] + d)
+                        if r2[2] > r2[3]:
+                            continue
+                        n += 1
+                        if n > 60:
+                            return
+                        yield {**case, "gen": case.get("gen", "") + "/nbr", "pretext": {**case["pretext"], "scaffolds":
+                               ptx[:i] + [{**sc, "rows": sc["rows"][:j] + [r2] + sc["rows"][j + 1 :]}] + ptx[i + 1 :]}}
+
     def shrink_candidates(self, case):
         inp = case["input"]["scaffolds"]
         ptx = case["pretext"]["scaffolds"]
